@@ -12,6 +12,7 @@
 -/
 import QV.Proofs.Include
 import QV.Proofs.ZoneFile.Compose
+import QV.Proofs.Flatten
 
 namespace QV.C25
 open QV QV.ZF QV.Inc QV.Spec.Inc
@@ -299,30 +300,10 @@ theorem C25_line_shift (p : Parser) (k : Nat) :
 theorem C25_ends_outside_parens (p : Parser) (hp : p.st.paren = false) : p.finish.st.paren = false :=
   finish_paren p hp
 
-/-- the records a tree reading reports, without file and line -/
-def recsOfSY {κ : Type} (ys : List (SY κ)) : List Rec :=
-  ys.filterMap fun y => match y with
-    | .record _ _ r => some r
-    | _ => none
-
-theorem recsOfSY_append {κ : Type} (a b : List (SY κ)) : recsOfSY (a ++ b) = recsOfSY a ++ recsOfSY b := by
-  simp [recsOfSY]
-
-theorem recsOfY_append (a b : List Yield) : recsOfY (a ++ b) = recsOfY a ++ recsOfY b := by
-  simp [recsOfY]
-
 theorem recsOfSY_tagged {κ : Type} (file : κ) (ys : List Yield) :
     recsOfSY (ys.filterMap (fun y => match y with
         | .item (.record l r) => some (SY.record file l r)
-        | _ => none)) = recsOfY ys := by
-  induction ys with
-  | nil => rfl
-  | cons y ys ih =>
-    simp only [recsOfSY, recsOfY, List.filterMap_cons] at ih ⊢
-    cases y with
-    | item i => cases i <;> simp [ih]
-    | err e => simp [ih]
-    | panic => simp [ih]
+        | _ => none)) = recsOfY ys := recsOfSY_tagRecs file ys
 
 /-- **The flattened-file equation** for one `$INCLUDE`: if the included file consists of records,
     is well terminated and error-free, ends with the origin the includer has (so that restoring
@@ -382,23 +363,77 @@ theorem C25_flatten_one_partial {κ : Type} (resolve : κ → List UInt8 → Opt
   rw [e1, hfinparen]
   exact recsOfY_line _ _ _ _ _
 
+/-! ### the flattened file of a whole tree -/
+
+/-- `$ORIGIN` lines exist for every name: `originLine o` (the name written with `\DDD` octets)
+    sets the origin to `o` and yields nothing, in every context -/
+theorem C25_origin_line (o : List UInt8) (ho : NameWF o) : OLine originLine o := OLine_originLine o ho
+
+/-- **Reading a tree = reading the flattened file.**  `t` describes a file cut at its `$INCLUDE`
+    lines, with the included files as sub-trees (`Tree`); `t.content` is the file as it is on
+    disk, `t.flat originLine ctx` the flattened text: every `$INCLUDE` line replaced by
+    `$ORIGIN <origin of the included file>`, the included file's flattened text, and
+    `$ORIGIN <origin of the includer>`.  For every tree that satisfies `TreeOK` (each piece
+    between `$INCLUDE` lines ends with an unescaped newline and, read on its own, consists of
+    records; each `$INCLUDE` line read on its own is the request it is; paths resolve to the
+    sub-trees; the depth limit is respected; where the includer has no origin the included file
+    leaves none): the records of the tree reading are exactly the records of the flattened text,
+    in order, and both readings end in the same context.  `_partial`: the tree must come cut into
+    pieces that parse on their own (the cut is not computed from the text), and files with errors
+    are outside the statement. -/
+theorem C25_flatten_tree_partial {κ : Type} (resolve : κ → List UInt8 → Option (κ × List UInt8)) (D : Nat)
+    (main : κ) (t : Tree κ) (hok : TreeOK resolve D originLine main 0 {} t) :
+    recsOfSY (readTree resolve D main t.content) = recsOfY (parseAll (t.flat originLine {}) {}) ∧
+    (readFile resolve D main 0 (Parser.new t.content)).2 =
+      some (Parser.withContext (t.flat originLine {}) {}).finish.ctx := by
+  obtain ⟨h1, h2, _, _⟩ := flatten_tree resolve D originLine t main 0 {} CtxWF_default hok 1
+  refine ⟨?_, ?_⟩
+  · unfold readTree
+    rw [show Parser.new t.content = ⟨false, ⟨t.content, 1, false⟩, {}⟩ from rfl, h1]
+    exact recsOfY_line _ _ _ _ _
+  · rw [show Parser.new t.content = ⟨false, ⟨t.content, 1, false⟩, {}⟩ from rfl, h2]
+    congr 1
+    exact finish_ctx_line _ _ _ _ _
+
+/-- the records the machine yields -/
+def recsOfFs (ys : List FsYield) : List Rec :=
+  ys.filterMap fun y => match y with
+    | .record _ _ r => some r
+    | _ => none
+
+/-- … and therefore the same holds for the include-stack machine of `fs::Parser::next` -/
+theorem C25_flatten_machine_partial (res : Resolver) (B D : Nat) (hB : 2 ≤ B)
+    (hsize : ∀ a b p c, res a b = .opened p c → c.length + 2 ≤ B)
+    (hnp : ∀ a b, res a b ≠ .noParent) (main : Path) (t : Tree Path)
+    (hok : TreeOK (resolveOf res) D originLine main 0 {} t) :
+    recsOfFs (runFs res B (FsParser.start main t.content D)) = recsOfY (parseAll (t.flat originLine {}) {}) := by
+  rw [C25_machine_refines_spec res B D hB hsize hnp, ← (C25_flatten_tree_partial (resolveOf res) D main t hok).1]
+  generalize readTree (resolveOf res) D main t.content = ys
+  induction ys with
+  | nil => rfl
+  | cons y ys ih =>
+    simp only [recsOfFs, recsOfSY, List.map_cons, List.filterMap_cons] at ih ⊢
+    cases y with
+    | record f l r => simp [conv, ih]
+    | err f k l => cases k <;> simp [conv, ih]
+    | panic => simp [conv, ih]
+
 /-!
   ### What is not proved (gap)
 
   The property's literal wording — "the same records as parsing the equivalent file with each
-  `$INCLUDE` replaced by the included file's contents" — is proved
-   * as one equation between record lists for one `$INCLUDE` whose file leaves the includer's
-     origin in place (`C25_flatten_one_partial`, built on `C25_machine_refines_spec`,
-     `C25_parse_append`, `C25_line_shift` and `C25_ends_outside_parens`), and
-   * in decomposed form for any origin (`C25_include_is_textual_partial`): tree reading and flat
-     reading yield the same records for the included text and then read the same remaining text
-     from contexts that differ only in the origin (restored by the tree reading — the "origin
-     scoping") and in the line counter.
-  Not proved: the equation for a whole tree with several or nested `$INCLUDE`s, with `$ORIGIN`
-  lines in the flattened text that emulate the origin scoping (it needs the standalone parse of
-  the text *between* includes, i.e. replacing a suffix of the input rather than appending one).
-  On every run the literal form is checked by the harness's flattening oracle (op `incflat`: the
-  flattened single file is parsed by the real in-memory parser; the record lists must be equal).
+  `$INCLUDE` replaced by the included file's contents, where the included file starts with the
+  includer's context (or the directive's origin) and the includer's origin is restored
+  afterwards" — is proved as `C25_flatten_tree_partial` / `C25_flatten_machine_partial` for whole
+  trees with any nesting, the origin scoping being emulated by `$ORIGIN` lines in the flattened
+  text (built on `C25_machine_refines_spec`, `C25_parse_append`, `C25_line_shift`,
+  `C25_ends_outside_parens`, `C25_origin_line`).  What remains: the tree must be given cut at its
+  `$INCLUDE` lines into pieces each of which parses on its own (`TreeOK`, checkable by
+  evaluation) — deriving that cut from the text alone needs the parser to be stable under
+  *replacing* a suffix of its input, not only under appending one; and trees whose reading hits
+  an error are not covered.  On every run the literal form is also checked by the harness's
+  flattening oracle (op `incflat`: the flattened single file is parsed by the real in-memory
+  parser; the record lists must be equal).
 -/
 
 /-! ### non-vacuity: a concrete tree, run through machine and semantics -/
@@ -557,5 +592,111 @@ example :
   have hflat : recsOfY (parseAll (exInc ++ exMainRest) { origin := some [1, 116, 0] }) =
       [⟨[1, 116, 0], 7, 1, 1, [9, 9, 9, 9]⟩, ⟨[1, 97, 1, 116, 0], 7, 1, 1, [1, 2, 3, 4]⟩] := by decide +kernel
   exact ⟨h.trans hflat, hflat⟩
+
+/-! ### non-vacuity: a whole tree and its flattened file -/
+
+/-- `main.zone` = `$ORIGIN t.` / `$INCLUDE i.zone s.` / `a IN A 1.2.3.4`, with `i.zone` =
+    `@ 7 IN A 9.9.9.9` -/
+private def exTree : Tree String :=
+  .node "$ORIGIN t.\n".toUTF8.toList "$INCLUDE i.zone s.\n".toUTF8.toList "i.zone".toUTF8.toList
+    (some [1, 115, 0]) "i.zone" (.leaf exInc) (.leaf exMainRest)
+
+private def exResolve : String → List UInt8 → Option (String × List UInt8) := fun _ _ => some ("i.zone", exInc)
+
+private theorem nameWF_s : NameWF [1, 115, 0] := ⟨[[115]], by simp [LabelsOK], by decide, by decide⟩
+private theorem nameWF_t : NameWF [1, 116, 0] := ⟨[[116]], by simp [LabelsOK], by decide, by decide⟩
+
+/-- the flattened text: `$ORIGIN t.` / `$ORIGIN \115.` / `@ 7 IN A 9.9.9.9` / `$ORIGIN \116.` /
+    `a IN A 1.2.3.4` -/
+example : exTree.flat originLine {} =
+    "$ORIGIN t.\n$ORIGIN \\115.\n@ 7 IN A 9.9.9.9\n$ORIGIN \\116.\na IN A 1.2.3.4\n".toUTF8.toList := by
+  decide +kernel
+
+private theorem exTree_ok : TreeOK exResolve 1 originLine "main.zone" 0 {} exTree := by
+  unfold exTree
+  simp only [TreeOK]
+  have hA : endCtx {} "$ORIGIN t.\n".toUTF8.toList = { origin := some [1, 116, 0] } := by decide +kernel
+  have hcc : childContext (endCtx {} "$ORIGIN t.\n".toUTF8.toList) (some [1, 115, 0]) = { origin := some [1, 115, 0] } := by
+    rw [hA]; rfl
+  refine ⟨.inr ⟨"$ORIGIN t.".toUTF8.toList, by decide +kernel, by decide +kernel⟩, ?_,
+    ⟨"$INCLUDE i.zone s.".toUTF8.toList, by decide +kernel, by decide +kernel⟩, ⟨1, by decide +kernel⟩, by decide, rfl,
+    ⟨.inr ⟨"@ 7 IN A 9.9.9.9".toUTF8.toList, by decide +kernel, by decide +kernel⟩, ?_⟩, ?_, ?_, ?_,
+    ⟨.inr ⟨"a IN A 1.2.3.4".toUTF8.toList, by decide +kernel, by decide +kernel⟩, ?_⟩⟩
+  · rw [show items0 {} "$ORIGIN t.\n".toUTF8.toList = [] from by decide +kernel]
+    intro y hy; cases hy
+  · rw [hcc, show items0 { origin := some [1, 115, 0] } exInc =
+      [.item (.record 0 ⟨[1, 115, 0], 7, 1, 1, [9, 9, 9, 9]⟩)] from by decide +kernel]
+    intro y hy; simp at hy; subst hy; exact ⟨_, _, rfl⟩
+  · intro o ho
+    rw [hcc] at ho
+    cases ho
+    exact C25_origin_line _ nameWF_s
+  · intro o ho
+    rw [hA] at ho
+    cases ho
+    exact C25_origin_line _ nameWF_t
+  · intro ho
+    rw [hA] at ho
+    cases ho
+  · rw [show items0 _ exMainRest = [.item (.record 0 ⟨[1, 97, 1, 116, 0], 7, 1, 1, [1, 2, 3, 4]⟩)] from by decide +kernel]
+    intro y hy; simp at hy; subst hy; exact ⟨_, _, rfl⟩
+
+/-- `C25_flatten_tree_partial` applies to it: both readings give the record of the included file
+    under `s.` and then the includer's record under `t.` -/
+example :
+    recsOfSY (readTree exResolve 1 "main.zone" exTree.content) =
+      [⟨[1, 115, 0], 7, 1, 1, [9, 9, 9, 9]⟩, ⟨[1, 97, 1, 116, 0], 7, 1, 1, [1, 2, 3, 4]⟩] ∧
+    recsOfY (parseAll (exTree.flat originLine {}) {}) =
+      [⟨[1, 115, 0], 7, 1, 1, [9, 9, 9, 9]⟩, ⟨[1, 97, 1, 116, 0], 7, 1, 1, [1, 2, 3, 4]⟩] := by
+  have h := (C25_flatten_tree_partial exResolve 1 "main.zone" exTree exTree_ok).1
+  have hflat : recsOfY (parseAll (exTree.flat originLine {}) {}) =
+      [⟨[1, 115, 0], 7, 1, 1, [9, 9, 9, 9]⟩, ⟨[1, 97, 1, 116, 0], 7, 1, 1, [1, 2, 3, 4]⟩] := by decide +kernel
+  exact ⟨h.trans hflat, hflat⟩
+
+example : OLine originLine [0] ∧ originLine [0] = "$ORIGIN .\n".toUTF8.toList :=
+  ⟨C25_origin_line [0] NameWF_root, by decide +kernel⟩
+
+/-- the same tree through the include-stack machine, with a resolver that opens `i.zone` for
+    every `$INCLUDE` -/
+private def exTreeFs : Tree Path :=
+  .node "$ORIGIN t.\n".toUTF8.toList "$INCLUDE i.zone s.\n".toUTF8.toList "i.zone".toUTF8.toList
+    (some [1, 115, 0]) "i.zone".toUTF8.toList (.leaf exInc) (.leaf exMainRest)
+
+private def exRes : Resolver := fun _ _ => .opened "i.zone".toUTF8.toList exInc
+
+example :
+    recsOfFs (runFs exRes 100 (FsParser.start "main.zone".toUTF8.toList exTreeFs.content 1)) =
+      recsOfY (parseAll (exTreeFs.flat originLine {}) {}) := by
+  refine C25_flatten_machine_partial exRes 100 1 (by decide)
+    (by intro a b p c h; cases h; decide +kernel) (by intro a b h; cases h)
+    "main.zone".toUTF8.toList exTreeFs ?_
+  unfold exTreeFs
+  simp only [TreeOK]
+  have hA : endCtx {} "$ORIGIN t.\n".toUTF8.toList = { origin := some [1, 116, 0] } := by decide +kernel
+  have hcc : childContext (endCtx {} "$ORIGIN t.\n".toUTF8.toList) (some [1, 115, 0]) = { origin := some [1, 115, 0] } := by
+    rw [hA]; rfl
+  refine ⟨.inr ⟨"$ORIGIN t.".toUTF8.toList, by decide +kernel, by decide +kernel⟩, ?_,
+    ⟨"$INCLUDE i.zone s.".toUTF8.toList, by decide +kernel, by decide +kernel⟩, ⟨1, by decide +kernel⟩, by decide,
+    rfl,
+    ⟨.inr ⟨"@ 7 IN A 9.9.9.9".toUTF8.toList, by decide +kernel, by decide +kernel⟩, ?_⟩, ?_, ?_, ?_,
+    ⟨.inr ⟨"a IN A 1.2.3.4".toUTF8.toList, by decide +kernel, by decide +kernel⟩, ?_⟩⟩
+  · rw [show items0 {} "$ORIGIN t.\n".toUTF8.toList = [] from by decide +kernel]
+    intro y hy; cases hy
+  · rw [hcc, show items0 { origin := some [1, 115, 0] } exInc =
+      [.item (.record 0 ⟨[1, 115, 0], 7, 1, 1, [9, 9, 9, 9]⟩)] from by decide +kernel]
+    intro y hy; simp at hy; subst hy; exact ⟨_, _, rfl⟩
+  · intro o ho
+    rw [hcc] at ho
+    cases ho
+    exact C25_origin_line _ nameWF_s
+  · intro o ho
+    rw [hA] at ho
+    cases ho
+    exact C25_origin_line _ nameWF_t
+  · intro ho
+    rw [hA] at ho
+    cases ho
+  · rw [show items0 _ exMainRest = [.item (.record 0 ⟨[1, 97, 1, 116, 0], 7, 1, 1, [1, 2, 3, 4]⟩)] from by decide +kernel]
+    intro y hy; simp at hy; subst hy; exact ⟨_, _, rfl⟩
 
 end QV.C25
